@@ -76,7 +76,12 @@ func runC01(c *core.Ctx, o Options) {
 		an.AllInstrs(fn, func(in ssa.Instruction) {
 			if st, ok := in.(*ssa.Store); ok {
 				if fa, ok := st.Addr.(*ssa.FieldAddr); ok && an.FieldOf(fa) == prepared {
-					writers = append(writers, an.NameOf(fn))
+					// a helper cut out of Prepare (one call site, unexported) writes on Prepare's behalf
+					owner := fn
+					if fn.Parent() == nil {
+						owner, _ = an.LogicalOwner(fn)
+					}
+					writers = append(writers, an.NameOf(owner))
 				}
 			}
 			if r, ok := in.(*ssa.Return); ok {
@@ -236,9 +241,28 @@ func runC01(c *core.Ctx, o Options) {
 			e2 := &an.SeqEval{Path: p}
 			// one entry per case: a helper such as `if len(part) == 0 { return 0 }; return len(part)+1` contributes its own
 			// conditions to the path's
-			for _, lc := range e2.EvalLenCases(p.ResVals[0]) {
+			cases := e2.EvalLenCases(p.ResVals[0])
+			var loopCond ssa.Value
+			// the length may be accumulated by a loop over a literal list of the parts: unrolled, one case per combination
+			if acc, isPhi := p.Return.Results[0].(*ssa.Phi); isPhi && an.LoopHeads(cbl)[acc.Block()] {
+				if lc, cond, ok := (&an.SeqEval{}).LoopSumCases(acc); ok {
+					cases, loopCond = lc, cond
+				}
+			}
+			for _, lc := range cases {
 				q := p
+				if loopCond != nil {
+					// the loop's own continuation test says nothing about the message
+					var keep []an.Atom
+					for _, a := range p.Atoms {
+						if a.Val != loopCond {
+							keep = append(keep, a)
+						}
+					}
+					q = &an.Path{Atoms: keep, Blocks: p.Blocks, Return: p.Return, Results: p.Results, ResVals: p.ResVals}
+				}
 				if len(lc.Atoms) > 0 {
+					p := q
 					q = &an.Path{Atoms: append(append([]an.Atom(nil), p.Atoms...), lc.Atoms...), Blocks: p.Blocks, Return: p.Return, Results: p.Results, ResVals: p.ResVals}
 				}
 				lens = append(lens, struct {
